@@ -346,7 +346,7 @@ func (t *poolTr) stmt(s ast.Stmt) []pstmt {
 		for _, r := range x.Results {
 			t.exprEffects(r)
 		}
-		return []pstmt{{op: "SReturn"}}
+		return []pstmt{{op: "SRet"}}
 	case *ast.BranchStmt:
 		die("construct.go:%d: %s outside an error branch (not modelled)", t.line(x), x.Tok)
 	case *ast.EmptyStmt:
